@@ -133,6 +133,9 @@ class Check(PropertyCheck):
         v, k = self.inspect_outputs(enclib.big_plains(self.rng, quick), 1, False)
         out += v
         n += k
+        v, k = self.inspect_outputs(enclib.boundary_plains(self.rng, 1, 16 if quick else 150), 1, True)
+        out += v
+        n += k
         self.notes.append("process-level outputs inspected: %d" % n)
         return (getattr(self, "witness_violations", []) + out)[:3]
 
